@@ -462,6 +462,7 @@ def compact(coords, conns):
 
 def delaunay_mesh(n, rng, hole=False):
     from scipy.spatial import Delaunay
+    hole = hole and n >= 8
     for _ in range(100):
         pts = set()
         while len(pts) < n:
@@ -492,6 +493,8 @@ def delaunay_mesh(n, rng, hole=False):
             conns = kept
         coords, conns = compact(pts, conns)
         return coords, conns
+    if hole:
+        return delaunay_mesh(n, rng, hole=False)
     raise RuntimeError("no Delaunay mesh found")
 
 
@@ -892,10 +895,25 @@ def main(tier, replay=None):
         rep.coverage["catalogue_situations_replayed"] = len(sit_cat)
         rep.coverage["side_pairs_covered_per_elevation"] = {k: len(v) for k, v in sorted(pairs_by_elev.items())}
         rep.coverage["python_wall_s"] = round(time.time() - t0, 1)
-        if traces:
-            mid = traces[len(traces) // 2]
-            rep.sample(dict(case={k: v for k, v in by_id[mid["id"]][0].items() if k in ("scenario", "source", "mode", "fmt", "elev", "nx", "ny")},
-                            first_event_op=mid["ev"][0]["op"]))
+        # samples: a small edge-table observation, an elevation summary and a merge summary as sent to TLC
+        for want in ("Edges", "Elevate", "Merge", "Read"):
+            for t in traces:
+                case = by_id[t["id"]][0]
+                ev = next((e for e in t["ev"] if e["op"] == want), None)
+                if ev is None or len(json.dumps(ev)) > 1500 and want in ("Edges", "Elevate"):
+                    continue
+                if want == "Edges":
+                    rep.sample(dict(scenario=case["scenario"], source=case.get("source"), event=ev))
+                elif want == "Elevate":
+                    rep.sample(dict(scenario=case["scenario"], source=case.get("source"), op="Elevate", p=ev["p"], bubble=ev["bubble"],
+                                    simplex_conns=ev["S"]["conns"], ho_conns=ev["H"]["conns"], roles=ev["roles"], place=ev["place"]))
+                elif want == "Merge":
+                    rep.sample(dict(scenario="merge", mode=case.get("mode"), blocksA=ev["A"]["blocks"], blocksB=ev["B"]["blocks"],
+                                    blocksMerged=ev["R"]["blocks"]))
+                else:
+                    rep.sample(dict(scenario="read", fmt=ev["fmt"], file_blocks=[dict(name=b["name"], n=len(b["conn"])) for b in ev["F"]["blocks"]],
+                                    file_nodeSets=ev["F"]["nodeSets"], read_nodeSets=ev["R"]["nodeSets"], read_blocks=ev["R"]["blocks"]))
+                break
 
         def on_fail(tid, l, clause):
             case, evs = by_id[tid]
